@@ -529,6 +529,20 @@ def add_canonical(a, b, w):
             terms.extend(f[0])
             const = (const + f[1]) & ((1 << w) - 1)
     terms.sort()
+    # t + t = t << 1 (exactly, mod 2^w): equal operands are folded so that z + z and 2 * z coincide
+    i = 0
+    while i + 1 < len(terms):
+        if terms[i] == terms[i + 1]:
+            t2 = (0,) + terms[i][:-1]
+            del terms[i:i + 2]
+            if any(t2):
+                terms.append(t2)
+                terms.sort()
+            i = 0
+        else:
+            i += 1
+    if not terms:
+        return const
     key = (tuple(terms), const)
     r = G.sum_cache.get(key)
     if r is None:
@@ -585,12 +599,29 @@ def binop(op, a, b, w):
         # shift-and-add; cheap when one operand is constant
         if isinstance(a, AV) and not isinstance(b, AV):
             ab, bb, a, b = bb, ab, b, a
+        sh = 0
+        if isinstance(a, AV) and isinstance(b, AV) and G.canon_sums:
+            # canonical form: common powers of two are pulled out ((2x) * y and 2 * (x * y) coincide) and the operand
+            # order is fixed (commutativity)
+            ab, bb = list(ab), list(bb)
+            while ab and ab[0] == 0:
+                ab = ab[1:] + [0]
+                sh += 1
+            while bb and bb[0] == 0:
+                bb = bb[1:] + [0]
+                sh += 1
+            if sh >= w or not any(ab) or not any(bb):
+                return 0
+            if tuple(ab) > tuple(bb):
+                ab, bb = bb, ab
         acc = [0] * w
         for i in range(w):
             if ab[i] == 0:
                 continue
             part = [0] * i + [G.AND(ab[i], y) for y in bb[:w - i]]
             acc = add_bits(acc, part)[0]
+        if sh:
+            acc = [0] * sh + acc[:w - sh]
         return mkv(acc)
     raise T_Unsupported("aig binop " + op)
 
